@@ -133,3 +133,49 @@ def sample_streams(rnd, n_streams, n_records):
     for _ in range(n_streams):
         out.append([mk(rnd.choice(["A", "A", "B", "C", "H", "G", "A2"])) for _ in range(rnd.randint(*n_records))])
     return out
+
+
+def random_values(T, rnd, n):
+    """seeded random values inside the classes of a type (used on top of the boundary representatives)"""
+    import struct
+
+    out = []
+    for i in range(n):
+        if T in ("varint", "filesize", "dynamic"):
+            bits = rnd.choice([1, 7, 8, 15, 16, 31, 32, 33, 63, 64, 65, 100, 200])
+            v = rnd.getrandbits(bits) + rnd.choice([-1, 0, 1])
+            out.append(("rnd", v if T == "filesize" else rnd.choice([v, -v])))
+        elif T in ("uint16", "net.tcp.Port", "net.udp.Port"):
+            out.append(("rnd", rnd.randint(0, 0xFFFF)))
+        elif T == "uint32":
+            out.append(("rnd", rnd.randint(0, 0xFFFFFFFF)))
+        elif T in ("string", "wstring", "uri"):
+            L = rnd.choice([0, 1, 30, 31, 32, 33, 254, 255, 256, 257, rnd.randint(0, 400)])
+            alphabet = ["a", "Z", "0", " ", "\n", "\t", '"', "'", "\\", ",", "é", "ß", "中", "\U0001f600", "\udc80", "\udcff", "\x00", "\x7f"]
+            out.append(("rnd", "".join(rnd.choice(alphabet) for _ in range(L))))
+        elif T == "bytes":
+            L = rnd.choice([0, 1, 254, 255, 256, 257, rnd.randint(0, 600)])
+            out.append(("rnd", bytes(rnd.getrandbits(8) for _ in range(L))))
+        elif T == "float":
+            v = struct.unpack(">d", struct.pack(">Q", rnd.getrandbits(64)))[0]
+            out.append(("rnd", v))
+        elif T == "datetime":
+            tz = rnd.choice([None, dt.timezone.utc, TZ530, TZSUB, dt.timezone(dt.timedelta(minutes=rnd.randint(-14 * 60, 14 * 60))), AMS, ZoneInfo("America/New_York")])
+            try:
+                out.append(("rnd", dt.datetime(rnd.randint(1, 9999), rnd.randint(1, 12), rnd.randint(1, 28), rnd.randint(0, 23), rnd.randint(0, 59), rnd.randint(0, 59), rnd.randint(0, 999999), tzinfo=tz)))
+            except Exception:
+                pass
+        elif T in ("net.ipaddress", "net.IPAddress"):
+            import ipaddress as ipa
+
+            if rnd.random() < 0.5:
+                a = ipa.IPv4Address(rnd.getrandbits(rnd.choice([8, 31, 32])))
+            else:
+                a = ipa.IPv6Address(rnd.getrandbits(rnd.choice([1, 16, 31, 32, 33, 63, 64, 65, 128])))
+            out.append(("rnd", str(a)))
+        elif T == "boolean":
+            out.append(("rnd", rnd.random() < 0.5))
+        elif T == "path":
+            parts = [rnd.choice(["a", "b c", "é", "..", ".", "x.txt", "\udcfe"]) for _ in range(rnd.randint(0, 4))]
+            out.append(("rnd", ("/" if rnd.random() < 0.5 else "") + "/".join(parts)))
+    return out
